@@ -179,13 +179,16 @@ class MixProcessor : public GraphProcessor {
       // hand the closure to another thread, which emits later and then completes the closure
       int n = 1 + (int)(g->delay_seed++ % 5);
       auto* self = this;
-      g->helpers.emplace_back([self, ins, n, c = std::move(closure)]() mutable {
+      // (thread creation is a scheduling point: build the thread first, then append it — the shared vector must not
+      // be in the middle of a reallocation when another worker gets the baton)
+      std::thread helper([self, ins, n, c = std::move(closure)]() mutable {
         yields(n);
         self->emit_all(ins);
         --g->inflight;
         vrt_event("done %d", self->spec->id);
         c.done(0);
       });
+      g->helpers.push_back(std::move(helper));
       return;
     }
     emit_all(ins);
